@@ -20,7 +20,10 @@ EXPLANATION = (
     "the object it is stored in; values copied out of the crop catalogue are immutable scalars (all 37 entries). "
     "C10.b (sources of nondeterminism): no call into random / numpy.random / uuid / secrets / os.urandom / hash() / "
     "id(); no order-sensitive use of a set (hash-seed dependent order); no numpy.empty / empty_like / ndarray allocation except as the backing of a frame whose every declared column is assigned in the same function; time.time() results reach only the execution-time "
-    "fields; os.getenv selects between identical imports. Trusted: numpy / pandas are deterministic (A-10). NOT "
+    "fields; os.getenv selects between identical imports. C10.c (isolation through shared inputs): no store of initialisation or stepping reaches an object the user handed in - the "
+    "objects a run has to write to (crop, soil, CO2) enter as deepcopy(self.<obj>), the others are never written - so two models built from the same "
+    "Soil / CO2 / management objects, run one after the other or stepped alternately, do not affect each other (same rule as C11.a). "
+    "Trusted: numpy / pandas are deterministic (A-10). NOT "
     "decided: bitwise equality itself.")
 
 IMMUTABLE_CALLS = {"str", "int", "float", "bool", "tuple", "frozenset", "dirname", "abspath", "join"}
@@ -344,4 +347,7 @@ def _is_set_expr(e: ast.AST, fi: FuncInfo) -> bool:
 def run(chk, prog, tier):
     rule_a(chk, prog)
     rule_b(chk, prog)
+    # C10.c: models share nothing mutable even when the user shares input objects between them
+    from .c11 import user_object_stores
+    user_object_stores(chk, prog, "C10.c")
     chk.exhaustive = True
